@@ -28,6 +28,17 @@ def params_from(comp):
     )
 
 
+def _plen(pts):
+    return sum(math.hypot(pts[i][0] - pts[i - 1][0], pts[i][1] - pts[i - 1][1]) for i in range(1, len(pts)))
+
+
+class _Sub(tuple):
+    """(points, closed) with an estimate of how far an engine that measures arclength on a
+    coarse flattening (Skia's contour measure works to ~0.5 units) may drift along it."""
+
+    drift = 0.0
+
+
 def local_subpaths(cmds, tol):
     out = []
     for sp in PG.interpret(cmds):
@@ -37,12 +48,16 @@ def local_subpaths(cmds, tol):
         for p in pts[1:]:
             if p != q[-1]:
                 q.append(p)
-        out.append((q, sp.closed))
+        item = _Sub((q, sp.closed))
+        fine = _plen(q)
+        coarse = _plen(PG.flatten_sub(sp, 0.5))
+        item.drift = 2.0 * max(0.0, fine - coarse) + 0.003 * fine
+        out.append(item)
     return out
 
 
 class Piece:
-    __slots__ = ("pts", "cum", "total", "full_closed", "miter")
+    __slots__ = ("pts", "cum", "total", "full_closed", "miter", "for_in", "for_out", "seam")
 
     def __init__(self, pts, full_closed):
         self.pts = pts
@@ -52,6 +67,8 @@ class Piece:
             self.cum.append(self.cum[-1] + math.hypot(pts[i][0] - pts[i - 1][0], pts[i][1] - pts[i - 1][1]))
         self.total = self.cum[-1]
         self.miter = None
+        self.for_in = self.for_out = True
+        self.seam = None  # (point, radius): start vertex of a closed dashed subpath
 
 
 def _cut(pts, a, b):
@@ -78,13 +95,33 @@ def _cut(pts, a, b):
 def pieces_for(leaf):
     P = leaf.params
     pcs = []
-    for pts, closed in leaf.subs:
+    for sub in leaf.subs:
+        pts, closed = sub
+        drift = getattr(sub, "drift", 0.0)
         if len(pts) < 2:
             continue
         if not P["dashes"]:
             pcs.append(Piece(pts, closed))
             continue
-        total = sum(math.hypot(pts[i][0] - pts[i - 1][0], pts[i][1] - pts[i - 1][1]) for i in range(1, len(pts)))
+        total = _plen(pts)
+        if closed and len(pts) >= 3:
+            # Whether the dash that meets the start point of a closed subpath gets caps or is
+            # joined to the first dash is engine-defined: nothing is claimed within the reach of
+            # a join/cap there.
+            ax, ay = pts[-1][0] - pts[-2][0], pts[-1][1] - pts[-2][1]
+            bx, by = pts[1][0] - pts[0][0], pts[1][1] - pts[0][1]
+            la, lb = math.hypot(ax, ay), math.hypot(bx, by)
+            reach = math.sqrt(2.0) * P["width"] / 2.0
+            if la and lb and P["join"] == "miter":
+                cosang = max(-1.0, min(1.0, (ax * bx + ay * by) / (la * lb)))
+                c = math.cos(math.acos(cosang) / 2.0)
+                ratio = 1.0 / c if c > 1e-9 else float("inf")
+                if ratio <= P["miterlimit"]:
+                    reach = max(reach, ratio * P["width"] / 2.0)
+            seam = Piece([pts[0], pts[0]], False)
+            seam.for_in = False
+            seam.seam = (pts[0], reach)
+            pcs.append(seam)
         period = sum(P["dashes"])
         pos = -(P["offset"] % period)  # pattern position 0 sits at arclength `pos`
         # walk pattern intervals until past the end
@@ -93,19 +130,32 @@ def pieces_for(leaf):
         while s < total and guard < 100000:
             on = True
             for d in P["dashes"]:
-                if on and d > 0:
-                    a, b = max(0.0, s), min(total, s + d)
-                    if b > a:
-                        q = _cut(pts, a, b)
+                if on:
+                    # the engine may place this dash up to `me` earlier or later (arclength drift),
+                    # and a dash boundary that coincides with an end of the path is a tie
+                    me = drift * min(1.0, max(0.0, s + d) / total) + 0.05
+                    a2, b2 = max(0.0, s) + me, min(total, s + d) - me
+                    if b2 > a2:
+                        q = _cut(pts, a2, b2)
                         if len(q) >= 2:
-                            pcs.append(Piece(q, False))
+                            pc = Piece(q, False)
+                            pc.for_out = False
+                            pcs.append(pc)
+                    a3, b3 = max(0.0, s - me), min(total, s + d + me)
+                    if b3 > a3:
+                        q = _cut(pts, a3, b3)
+                        if len(q) >= 2:
+                            pc = Piece(q, False)
+                            pc.for_in = False
+                            pcs.append(pc)
                 s += d
                 on = not on
                 guard += 1
     # miter lengths at interior vertices
     w2 = P["width"] / 2.0
     for pc in pcs:
-        pc.miter = _miters(pc, P, w2)
+        if pc.seam is None:
+            pc.miter = _miters(pc, P, w2)
     return pcs
 
 
@@ -173,6 +223,11 @@ def query(leaf, p, delta, eps):
     for pc in pcs:
         pts = pc.pts
         n = len(pts)
+        if pc.seam is not None:
+            (vx, vy), reach = pc.seam
+            if (x - vx) ** 2 + (y - vy) ** 2 <= (reach + dt) ** 2:
+                maybe_out = False
+            continue
         for i in range(1, n):
             x0, y0 = pts[i - 1]
             x1, y1 = pts[i]
@@ -185,14 +240,15 @@ def query(leaf, p, delta, eps):
             ex, ey = x - (x0 + tc * dx), y - (y0 + tc * dy)
             dc = math.sqrt(ex * ex + ey * ey)
             if dc <= r_out:
-                maybe_out = False
-                if r_in > 0 and 0.0 < t < 1.0 and dc < r_in:
+                if pc.for_out:
+                    maybe_out = False
+                if pc.for_in and r_in > 0 and 0.0 < t < 1.0 and dc < r_in:
                     if pc.full_closed:
                         return True
                     s = pc.cum[i - 1] + t * math.sqrt(L2)
                     if dt <= s <= pc.total - dt:
                         return True
-        if maybe_out:
+        if maybe_out and pc.for_out:
             # joins reach farther than w/2 (miter), caps too (square)
             for i in range(n):
                 r = pc.miter[i] + dt
@@ -207,3 +263,102 @@ def query(leaf, p, delta, eps):
                         maybe_out = False
                         break
     return False if maybe_out else None
+
+
+def min_curvature_radius(cmds, tol=0.01, near=None, within=None):
+    """Smallest radius of curvature along the curved segments of a path (inf if none),
+    estimated on a fine flattening (corners between segments are joins, not curvature).
+    With near/within only locations closer than `within` to the point `near` count."""
+    best = float("inf")
+    for sp in PG.interpret(cmds):
+        for sg in sp.segs:
+            if sg[0] == "L":
+                continue
+            pts = [sg[1]]
+            PG.flatten_seg(sg, tol, pts)
+            for i in range(1, len(pts) - 1):
+                ax, ay = pts[i][0] - pts[i - 1][0], pts[i][1] - pts[i - 1][1]
+                bx, by = pts[i + 1][0] - pts[i][0], pts[i + 1][1] - pts[i][1]
+                la, lb = math.hypot(ax, ay), math.hypot(bx, by)
+                if la == 0 or lb == 0:
+                    continue
+                cr = ax * by - ay * bx
+                dt = ax * bx + ay * by
+                th = abs(math.atan2(cr, dt))
+                if near is not None and math.hypot(pts[i][0] - near[0], pts[i][1] - near[1]) > within:
+                    continue
+                if th > 1e-9:
+                    best = min(best, 0.5 * (la + lb) / th)
+    return best
+
+
+def arc_cubics(seg):
+    """Own conversion of an arc primitive into cubic pieces of at most 90 degrees (standard
+    4/3*tan(dtheta/4) construction) - used only to hand arcs to the engine as curves."""
+    pr = PG.arc_center(*seg[1:])
+    if pr is None:
+        return []
+    if pr == ("line",):
+        return [(seg[1], seg[7], seg[7])]
+    n = max(1, int(math.ceil(abs(pr["dth"]) / (math.pi / 2) - 1e-9)))
+    out = []
+    c, s_ = math.cos(pr["phi"]), math.sin(pr["phi"])
+
+    def pt(x, y):
+        return (c * x * pr["rx"] - s_ * y * pr["ry"] + pr["cx"], s_ * x * pr["rx"] + c * y * pr["ry"] + pr["cy"])
+
+    for i in range(n):
+        a0 = pr["th1"] + pr["dth"] * i / n
+        a1 = pr["th1"] + pr["dth"] * (i + 1) / n
+        k = 4.0 / 3.0 * math.tan((a1 - a0) / 4.0)
+        p1 = pt(math.cos(a0) - k * math.sin(a0), math.sin(a0) + k * math.cos(a0))
+        p2 = pt(math.cos(a1) + k * math.sin(a1), math.sin(a1) - k * math.cos(a1))
+        e = seg[7] if i == n - 1 else pt(math.cos(a1), math.sin(a1))
+        out.append((p1, p2, e))
+    return out
+
+
+def engine_direct_contains(leaf, p_root, tolerance=0.1):
+    """Stroke the leaf's own geometry by calling skia-pathops directly from the harness with
+    the parameters SVG prescribes, and report whether the result covers p_root.
+    Used only to attribute a deviation from the ideal stroke to the engine."""
+    import pathops
+
+    if leaf.inv is None or leaf.cmds is None:
+        return None
+    P = leaf.params
+    caps = {"butt": pathops.LineCap.BUTT_CAP, "round": pathops.LineCap.ROUND_CAP, "square": pathops.LineCap.SQUARE_CAP}
+    joins = {"miter": pathops.LineJoin.MITER_JOIN, "round": pathops.LineJoin.ROUND_JOIN, "bevel": pathops.LineJoin.BEVEL_JOIN}
+    if P["cap"] not in caps or P["join"] not in joins:
+        return None
+    path = pathops.Path()
+    for sp in PG.interpret(leaf.cmds):
+        path.moveTo(*sp.start)
+        for sg in sp.segs:
+            if sg[0] == "L":
+                path.lineTo(*sg[2])
+            elif sg[0] == "Q":
+                path.quadTo(*sg[2], *sg[3])
+            elif sg[0] == "C":
+                path.cubicTo(*sg[2], *sg[3], *sg[4])
+            else:
+                for c1, c2, e in arc_cubics(sg):
+                    path.cubicTo(*c1, *c2, *e)
+        if sp.closed:
+            path.close()
+    path.stroke(P["width"], caps[P["cap"]], joins[P["join"]], P["miterlimit"], list(P["dashes"]), P["offset"])
+    path.convertConicsToQuads(tolerance)
+    try:
+        path.simplify(fix_winding=True)
+    except Exception:
+        pass
+    cmds = []
+    names = {pathops.PathVerb.MOVE: "M", pathops.PathVerb.LINE: "L", pathops.PathVerb.QUAD: "Q", pathops.PathVerb.CUBIC: "C", pathops.PathVerb.CLOSE: "Z"}
+    for verb, pts in path:
+        if verb not in names:
+            return None
+        cmds.append((names[verb], tuple(float(v) for pt in pts for v in pt)))
+    a, b, c, d, e, f = leaf.inv
+    x, y = a * p_root[0] + c * p_root[1] + e, b * p_root[0] + d * p_root[1] + f
+    polys = PG.flatten(cmds, tol=1e-3)
+    return PG.winding((x, y), polys) != 0
